@@ -431,21 +431,20 @@ func (r *Rule) transformArg(arg types.MatchData, argIdx int, cache map[transform
 		return arg, errs
 	default:
 		// NOTE: See comment on transformationKey struct to understand this hacky code
-		argKey := arg.Key()
-		argKeyPtr := unsafe.StringData(argKey)
+		argValue := arg.Value()
+		argValuePtr := unsafe.StringData(argValue)
 
 		// Search from longest prefix (full chain) backwards for a cache hit.
 		// Best case: full chain cached → single map lookup, done.
 		// Typical case: shared prefix cached → start computing from there.
 		startIdx := 0
-		value := arg.Value()
+		value := argValue
 		var errs []error
 
 		for i := len(r.transformationPrefixIDs) - 1; i >= 0; i-- {
 			key := transformationKey{
-				argKey:            argKeyPtr,
-				argIndex:          argIdx,
-				argVariable:       arg.Variable(),
+				argValue:          argValuePtr,
+				argLen:            len(argValue),
 				transformationsID: r.transformationPrefixIDs[i],
 			}
 			if cached, ok := cache[key]; ok {
@@ -476,9 +475,8 @@ func (r *Rule) transformArg(arg types.MatchData, argIdx int, cache map[transform
 			}
 
 			key := transformationKey{
-				argKey:            argKeyPtr,
-				argIndex:          argIdx,
-				argVariable:       arg.Variable(),
+				argValue:          argValuePtr,
+				argLen:            len(argValue),
 				transformationsID: r.transformationPrefixIDs[i],
 			}
 			cache[key] = transformationValue{arg: value, errs: errs}
